@@ -62,7 +62,7 @@ LEVEL = {"quick": "fault_enumeration", "thorough": "fault_enumeration"}
 BULK = ("update", "supdate", "ior", "iand", "isub", "ixor")
 READONLY = ("get", "getd", "getitem", "in", "has_key", "minKey", "maxKey",
             "range", "len", "iter", "keys", "items", "values", "isdisjoint",
-            "mod", "ctor", "ctork", "resolve", "viewlen")
+            "mod", "ctor", "ctork", "resolve", "viewlen", "seqidx")
 _VIEW = [None]      # the lazy sequence a "viewlen" operation keeps
 
 
